@@ -117,6 +117,33 @@ EXPLANATION = (
     "index-keyed pairings and zip-based pairings are reported as analysis "
     "errors, not decided.  Not decided: that the resulting partition is "
     "correct for every code object (that needs the bytecode).")
+EXPLANATION += (
+    "  R16.3 also decides WHERE a resolved target comes from: `op.target` must "
+    "be an element of the instruction list the pass walks (`ops[..]`), "
+    "selected through the offset->index table _make_opcode_list returned; a "
+    "target subscripted out of another parameter (`offset_to_op[op.argval]`, "
+    "the index table itself) is a violation, because _make_opcode_list "
+    "elides instructions (3.11: the JUMP_BACKWARD closing an `async for`) "
+    "and records only in that table which instruction took their place - an "
+    "elided instruction is in no list, has no index/prev/next and starts no "
+    "block; build_opcodes must hand both results of _make_opcode_list to "
+    "_add_jump_targets.  R16.23 (rules/c16_stale_positions.py): the block "
+    "passes address blocks and instructions by list index; in blocks.py and "
+    "pyc/opcodes.py no `for` loop that subscripts a list with its target "
+    "(v, v + c, v - c) - positions computed before the loop - may also "
+    "change that list structurally in its body (del xs[i], pop, insert, "
+    "remove, clear, slice assignment; append moves nothing and is exempt), "
+    "unless the loop is left right after the change (break / return) or the "
+    "loop walks distinct positions largest-first (sorted(<set>, "
+    "reverse=True), reversed(sorted(<set>)), reversed(range(..)), range(a, "
+    "b, -1)), touches only xs[v] and the change is del xs[v] / xs.pop(v).  "
+    "Otherwise every position after the first change denotes another "
+    "element (two `async for` loops in one code object: the wrong block "
+    "loses its jump, is merged, is deleted).  Iterating the list itself "
+    "while changing it is a violation as well; compensated indices (`xs[i - "
+    "deleted]`) are analysis errors; `while` loops that recompute their "
+    "position and lists reached through a subscript (`blocks[i].code.pop()`) "
+    "are outside the rule.")
 ASSUMPTIONS = [
     "pycnite.mapping (get_mapping, arg_type) describes what pycnite.bytecode "
     "delivers: argval of a JREL/JABS operand is the absolute target offset, "
@@ -463,14 +490,36 @@ def r16_3(ctx):
               and dotted(t.value) == tvar for t in s2.targets) and \
               flow.guards_txt(mod.parent, s2, stop=fn) == g0:
             via = f"{via} (overwritten at line {s2.lineno} before the lookup)"
-  if via is None:
+  # the list the targets must be elements of: the parameter the pass walks
+  walked = {dotted(l.iter) for l in ast.walk(fn) if isinstance(l, ast.For)
+            and tvar in {n.id for n in ast.walk(l.target) if isinstance(n, ast.Name)}}
+  foreign = None
+  if via is None and walked == {ops_p} and isinstance(val, ast.Subscript) and \
+      isinstance(val.value, ast.Name) and val.value.id != ops_p and \
+      val.value.id in params:
+    # `op.target = <other table>[..]`: the target is not selected from the
+    # instruction list at all, so the redirection of elided instructions that
+    # _make_opcode_list recorded (offset -> index of the instruction that
+    # took its place) is bypassed
+    foreign = val.value.id
+  if via is None and foreign is None:
     raise AnalysisError(
         f"{OPC}: _add_jump_targets: how the index of `{src(val)}` is obtained from "
         f"{idx_p} is not understood")
-  ctx.check(via == f"{tvar}.argval", "_add_jump_targets:index", OPC, st.lineno,
-            "the target must be ops[offset_to_index[op.argval]] (argval is the "
-            f"decoded target offset); found index via `{via}`",
-            {"value": src(val), "offset_expr": via})
+  if foreign is not None:
+    ctx.bad("_add_jump_targets:index", OPC, st.lineno,
+            f"the target is read from `{src(val)}`, not from the instruction "
+            f"list `{ops_p}`: it must be {ops_p}[offset_to_index[op.argval]] - an "
+            "instruction that _make_opcode_list elided (3.11: the JUMP_BACKWARD "
+            "closing an `async for`) is in no list, has no index/prev/next and "
+            "starts no block, and only the offset->index table redirects jumps "
+            "to it to the instruction that took its place",
+            {"value": src(val), "offset_expr": None, "table": foreign})
+  else:
+    ctx.check(via == f"{tvar}.argval", "_add_jump_targets:index", OPC, st.lineno,
+              "the target must be ops[offset_to_index[op.argval]] (argval is the "
+              f"decoded target offset); found index via `{via}`",
+              {"value": src(val), "offset_expr": via})
 
   # build_opcodes: order of the passes
   bo = mod.func("build_opcodes")
@@ -1757,6 +1806,25 @@ VARIANTS = [
      "expect": "error", "old": _JT_INLINE,
      "new": "      op.arg = op.argval = _lookup(offset_to_index, op)\n"
             "      op.target = ops[op.arg]\n"},
+    {"name": "seeded-C16-r4m2", "rule": "R16.3",
+     "patch": "seeded/C16-r4m2/patch.diff", "expect": "fire"},
+    {"name": "jump-target-read-from-the-index-table", "rule": "R16.3", "file": OPC,
+     "expect": "fire", "old": _JT_INLINE,
+     "new": "      op.arg = op.argval = offset_to_index[op.argval]\n"
+            "      op.target = offset_to_index[op.arg]\n"},
+    {"name": "jump-target-from-offset-dict-bypassing-the-list", "rule": "R16.3",
+     "expect": "fire",
+     "edits": [(OPC, "def _add_jump_targets(ops, offset_to_index):",
+                "def _add_jump_targets(ops, by_offset):"),
+               (OPC, _JT_INLINE,
+                "      op.target = by_offset[op.argval]\n"
+                "      op.arg = op.argval = op.target.index\n"),
+               (OPC, "  _add_jump_targets(ops, offset_to_idx)\n",
+                "  _add_jump_targets(ops, offset_to_op)\n")]},
+    {"name": "twin-jump-target-first-then-its-index", "rule": "R16.3", "file": OPC,
+     "expect": "silent", "old": _JT_INLINE,
+     "new": "      op.target = ops[offset_to_index[op.argval]]\n"
+            "      op.arg = op.argval = op.target.index\n"},
     {"name": "twin-pop-block-arm-extracted", "rule": "R16.6", "expect": "silent",
      "edits": _extract_pop_arm("block_stack[-1].target")},
     {"name": "extracted-pop-block-arm-targets-the-setup-op", "rule": "R16.6", "expect": "fire",
